@@ -92,6 +92,8 @@ type ContractSet struct {
 	Lemmas []*Lemma
 	Schema map[string]*SchemaType
 	WireFmts []*SchemaType
+	TextOrder map[string][]string // record type -> fields in the order of its presentation format (when it differs from the wire order)
+	NoText map[string]bool // record types without a presentation format of their own
 	Files  []string
 }
 
@@ -209,6 +211,24 @@ func (cs *ContractSet) parseFile(path string) error {
 				cs.Schema = map[string]*SchemaType{}
 			}
 			cs.Schema[st.Name] = st
+			cur = nil
+		case "textorder":
+			f := strings.Fields(rest)
+			if len(f) < 2 {
+				return fail(fmt.Errorf("textorder <Type> fields..."))
+			}
+			if cs.TextOrder == nil {
+				cs.TextOrder = map[string][]string{}
+			}
+			cs.TextOrder[f[0]] = f[1:]
+			cur = nil
+		case "notext":
+			if cs.NoText == nil {
+				cs.NoText = map[string]bool{}
+			}
+			for _, t := range strings.Fields(rest) {
+				cs.NoText[t] = true
+			}
 			cur = nil
 		case "spec":
 			sp, err := parseSpec(rest)
